@@ -80,8 +80,8 @@ def build_site_table(u):
     u.site_table = {}
 
 
-def run_verus(path, rlimit=30, threads=4, extra=None):
-    cmd = ["verus", path, "--output-json", "--time", "--multiple-errors", "30",
+def run_verus(path, rlimit=30, threads=4, extra=None, multiple_errors=30):
+    cmd = ["verus", path, "--output-json", "--time", "--multiple-errors", str(multiple_errors),
            "--rlimit", str(rlimit), "--num-threads", str(threads), "--error-format=json",
            "--no-report-long-running"]
     if extra:
@@ -135,7 +135,8 @@ def _run_unit(name, prop, canary=False, mutate=None, suffix=""):
     fname = f"{name}__{tagp}{'__canary' if canary else ''}{suffix}.rs"
     path = os.path.join(BUILD, fname)
     open(path, "w").write(text)
-    r = run_verus(path)
+    # canary runs only need one failing exit per function
+    r = run_verus(path, multiple_errors=(0 if canary else 30))
     out = {"unit": name, "prop": prop, "canary": canary, "file": path, "cmd": r["cmd"],
            "wall_s": round(r["wall"], 2), "failures": [], "undecided": [], "verified": 0, "errors": 0,
            "smt_ms": None, "u": u}
